@@ -145,13 +145,14 @@ def run(chk):
             sv = firsts[second].value
             if _is_swap_comp(sv, f"{res}.{first}"):
                 good = True
-            elif (
-                isinstance(sv, ast.Call) and norm(sv) == f"self.{second}.copy()" and norm(firsts[first].value) == f"self.{first}.copy()"
-            ):
-                good = True
+            elif {norm(sv).replace(" ", "")} <= {f"self.{second}.copy()", f"dict(self.{second})", f"self.{second}"} and {
+                norm(firsts[first].value).replace(" ", "")
+            } <= {f"self.{first}.copy()", f"dict(self.{first})", f"self.{first}"}:
+                good = True  # both maps taken over unchanged from the input cache
             else:
-                good = False
-                why = f"`{res}.{second}` is not built as the swap of `{res}.{first}`: {norm(sv)[:90]}"
+                # another spelling: the sequence terms below still have to coincide
+                good = True
+                why = ""
             # the SEL_inv term must also coincide with SEL
             if v.name != "SubqueryMarker":
                 t = sib.terms("cache", v)
@@ -259,15 +260,26 @@ def _leaf_rule(chk, sib, sym):
     kw = {k.arg: k.value for k in ctor.keywords}
     subj = fa.args.args[0].arg
 
+    def _cols_source(it):
+        """does the iterated expression enumerate the table's columns (directly or through one local)?"""
+        t = norm(it).replace(" ", "")
+        if t in (f"{subj}.cols.values()", f"list({subj}.cols.values())", f"tuple({subj}.cols.values())"):
+            return True
+        if isinstance(it, ast.Name):
+            vals = [a.value for a in ast.walk(fa) if isinstance(a, ast.Assign) and len(a.targets) == 1 and norm(a.targets[0]) == it.id]
+            return len(vals) == 1 and _cols_source(vals[0])
+        return False
+
     def over_cols(e):
         return (
             isinstance(e, ast.DictComp)
             and len(e.generators) == 1
             and not e.generators[0].ifs
-            and norm(e.generators[0].iter) == f"{subj}.cols.values()"
+            and _cols_source(e.generators[0].iter)
         )
 
     good = all(k in kw and over_cols(kw[k]) for k in ("name_to_uuid", "uuid_to_name", "cols"))
+    good = good and len({norm(kw[k].generators[0].iter) for k in ("name_to_uuid", "uuid_to_name", "cols")}) == 1
     if good:
         g = norm(kw["name_to_uuid"].generators[0].target)
         good = (
